@@ -69,6 +69,9 @@ enum Op {
     Collect(usize),
     SplitInto(u8, usize, usize, usize),
     Lookup(usize, usize, u32),
+    /// another tokenizer (mode, field request) analyses a pool text and collects into list k: one result list shared by
+    /// two tokenizers.  Not part of the Coq run: a later collect of our tokenizer overwrites everything the list shows.
+    OtherCollect(usize, usize, u8, u32),
 }
 
 fn mode_of(m: u8) -> Mode {
@@ -294,6 +297,14 @@ fn exec(im: &mut Impl, wd: &WD, lx: &Lexica, pool: &[Txt], op: &Op) {
             let q = pool[*q].get();
             let _ = catch(|| l.lookup(&q, InfoSubset::from_bits_truncate(*ss)));
         }
+        Op::OtherCollect(k, t, m, ss) => {
+            let mut other = StatefulTokenizer::new(wd.clone(), mode_of(*m));
+            other.set_subset(InfoSubset::from_bits_truncate(*ss));
+            if analyse(&mut other, &pool[*t].get()) == 0 {
+                let l = &mut im.lists[*k];
+                let _ = catch(|| l.collect_results(&mut other));
+            }
+        }
     }
 }
 
@@ -316,6 +327,7 @@ fn cop(op: &Op, pool: &[Txt]) -> Option<String> {
             }
             format!("OLookup {}%nat {} {}", k, pool[*q].coq(), cn(*ss))
         }
+        Op::OtherCollect(..) => return None,
     })
 }
 
@@ -356,6 +368,7 @@ fn op_json(op: &Op) -> Value {
         Op::Collect(k) => json!(["collect", k]),
         Op::SplitInto(m, s, i, o) => json!(["split_into", m, s, i, o]),
         Op::Lookup(k, q, ss) => json!(["lookup", k, q, ss]),
+        Op::OtherCollect(k, t, m, ss) => json!(["other_collect", k, t, m, ss]),
     }
 }
 fn op_from(v: &Value) -> Op {
@@ -367,11 +380,57 @@ fn op_from(v: &Value) -> Op {
         "new_list" => Op::NewList,
         "collect" => Op::Collect(n(1) as usize),
         "split_into" => Op::SplitInto(n(1) as u8, n(2) as usize, n(3) as usize, n(4) as usize),
+        "other_collect" => Op::OtherCollect(n(1) as usize, n(2) as usize, n(3) as u8, n(4) as u32),
         _ => Op::Lookup(n(1) as usize, n(2) as usize, n(3) as u32),
     }
 }
 
+/// a field request: everything, a random subset, or a narrow one (few fields)
+fn gen_subset(rng: &mut Rng) -> u32 {
+    match rng.below(4) {
+        0 => 1023,
+        1 => rng.below(1024) as u32,
+        2 => 1 << rng.below(10),
+        _ => (1 << rng.below(10)) | (1 << rng.below(10)),
+    }
+}
+
+/// "calls": what a client of a binding does -- change the request (set_subset / set_mode) now and then, analyse, collect
+/// into a result list that is mostly the same one; sometimes another tokenizer fills the shared list in between
+fn gen_calls(rng: &mut Rng, pool: &[Txt]) -> Vec<Op> {
+    let mut ops = vec![Op::NewList];
+    let mut nlists = 1usize;
+    let plain = |rng: &mut Rng| 3 + rng.below((pool.len() - 3) as u64) as usize;
+    for _ in 0..(2 + rng.below(4)) {
+        match rng.below(6) {
+            0 | 1 => ops.push(Op::SetSubset(gen_subset(rng))),
+            2 => ops.push(Op::SetMode(rng.below(3) as u8)),
+            3 => {
+                ops.push(Op::SetSubset(gen_subset(rng)));
+                ops.push(Op::SetMode(rng.below(3) as u8));
+            }
+            _ => {}
+        }
+        if rng.chance(1, 6) {
+            ops.push(Op::NewList);
+            nlists += 1;
+        }
+        let k = if rng.chance(2, 3) { 0 } else { rng.below(nlists as u64) as usize };
+        if rng.chance(1, 5) {
+            ops.push(Op::OtherCollect(k, plain(rng), rng.below(3) as u8, gen_subset(rng)));
+        }
+        ops.push(Op::Analyse(if rng.chance(1, 8) { rng.below(pool.len() as u64) as usize } else { plain(rng) }));
+        if !matches!(ops.last(), Some(Op::Analyse(t)) if matches!(pool[*t], Txt::CommitOverflow)) {
+            ops.push(Op::Collect(k));
+        }
+    }
+    ops
+}
+
 fn gen_ops(rng: &mut Rng, pool: &[Txt]) -> Vec<Op> {
+    if rng.chance(1, 2) {
+        return gen_calls(rng, pool);
+    }
     let mut ops = vec![Op::NewList];
     let mut nlists = 1usize;
     let n = 1 + rng.below(9) as usize;
@@ -379,7 +438,7 @@ fn gen_ops(rng: &mut Rng, pool: &[Txt]) -> Vec<Op> {
     for _ in 0..n {
         let op = match rng.below(16) {
             0..=1 => Op::SetMode(rng.below(3) as u8),
-            2 => Op::SetSubset(if rng.chance(1, 3) { 1023 } else { rng.below(1024) as u32 }),
+            2 => Op::SetSubset(gen_subset(rng)),
             3..=8 => Op::Analyse(rng.below(pool.len() as u64) as usize),
             9 => {
                 nlists += 1;
@@ -387,6 +446,7 @@ fn gen_ops(rng: &mut Rng, pool: &[Txt]) -> Vec<Op> {
             }
             10..=12 if last_analyse => Op::Collect(rng.below(nlists as u64) as usize),
             13 => Op::SplitInto(rng.below(2) as u8, rng.below(nlists as u64) as usize, rng.below(3) as usize, rng.below(nlists as u64) as usize),
+            14 if rng.chance(1, 3) => Op::OtherCollect(rng.below(nlists as u64) as usize, 3 + rng.below((pool.len() - 3) as u64) as usize, rng.below(3) as u8, gen_subset(rng)),
             14 => Op::Lookup(rng.below(nlists as u64) as usize, rng.below(pool.len() as u64) as usize, if rng.chance(1, 2) { 1023 } else { rng.below(1024) as u32 }),
             _ => Op::Analyse(rng.below(pool.len() as u64) as usize),
         };
@@ -531,6 +591,7 @@ fn run_case(sink: &mut Sink, w: &World, pool: &[Txt], m0: u8, ops: &[Op], probe:
             Op::Collect(_) => "op_collect",
             Op::SplitInto(..) => "op_split_into",
             Op::Lookup(..) => "op_lookup",
+            Op::OtherCollect(..) => "op_other_tokenizer_collects_into_shared_list",
         });
     }
     sink.tag(match hist_flag {
@@ -691,7 +752,7 @@ fn python_stage(sink: &mut Sink, args: &Args, rng: &mut Rng, replay: Option<Valu
 pub fn run(args: &Args) {
     let mut sink = Sink::new("C10", &args.out, &["Model.TokState"], args.seed, &args.tier);
     sink.shard_size = 60;
-    sink.rule("per generated dictionary (as in C09, with DefaultInputTextPlugin + length-changing rewrite.def and a path rewrite plugin that fails on '!'): a pool of texts (empty, short, long, oversized for start_build, oversized after rewriting, late-failing) and random sequences of 1..9 operations {set_mode, set_subset, analyse, new list, collect into a possibly reused list, split_into, lookup} on one StatefulTokenizer, then a probe (analyse + collect into a possibly reused list) compared in outcome, boundaries, word ids, every requested field and the on-demand split (split_into A/B) of every morpheme with (1) a fresh tokenizer carrying the same accumulated field set and (2) a fresh tokenizer of the same mode given the user's field request (default or last set_subset); plus sudachipy sessions (module built from the working tree): 1..5 tokenize calls with per-call mode override / out= reuse / rejected texts, then a probe call compared in boundaries, word ids, every requested field and tokenizer.mode with a fresh Tokenizer of the same mode and fields; non-trivial = the history holds at least one analysis and the probe yields tokens");
+    sink.rule("per generated dictionary (as in C09, with DefaultInputTextPlugin + length-changing rewrite.def and a path rewrite plugin that fails on '!'): a pool of texts (empty, short, long, oversized for start_build, oversized after rewriting, late-failing) and random sequences of 1..9 operations {set_mode, set_subset (all / random / narrow requests), analyse, new list, collect into a possibly reused list, split_into, lookup, another tokenizer collecting into the shared list} -- half of them call-structured: [request change] analyse collect, mostly into the same list -- on one StatefulTokenizer, then a probe (analyse + collect into a possibly reused list) compared in outcome, boundaries, word ids, every requested field and the on-demand split (split_into A/B) of every morpheme with (1) a fresh tokenizer carrying the same accumulated field set and (2) a fresh tokenizer of the same mode given the user's field request (default or last set_subset); plus sudachipy sessions (module built from the working tree): 1..5 tokenize calls with per-call mode override / out= reuse / rejected texts, then a probe call compared in boundaries, word ids, every requested field and tokenizer.mode with a fresh Tokenizer of the same mode and fields; non-trivial = the history holds at least one analysis and the probe yields tokens");
     let res = prepare_resources(&args.work);
     let cfg = config_json(&res, "");
     if let Some(p) = &args.replay {
@@ -721,7 +782,7 @@ pub fn run(args: &Args) {
     let ndict = args.n(30, 400);
     let per = args.n(30, 60);
     for _ in 0..ndict {
-        let lx = gen_lexica(&mut rng, false);
+        let lx = gen_lexica(&mut rng, false, 0);
         let w = match catch(|| world(lx.clone(), &cfg)) {
             Ok(Ok(w)) => w,
             other => {
@@ -742,6 +803,10 @@ pub fn run(args: &Args) {
             vec![Op::NewList, Op::SetMode(0), Op::Analyse(8), Op::Collect(0), Op::SetMode(2)],  // one-off mode override (C -> A -> C), default fields
             vec![Op::NewList, Op::SetMode(1), Op::Analyse(3), Op::SetMode(0)],                  // B -> A
             vec![Op::NewList, Op::SetSubset(1023), Op::SetMode(1), Op::SetMode(2), Op::SetMode(0), Op::SetMode(2)],
+            // request narrowed, collected, widened, collected into the same list again
+            vec![Op::NewList, Op::SetSubset(4), Op::Analyse(8), Op::Collect(0), Op::SetSubset(1023), Op::Analyse(3), Op::Collect(0)],
+            vec![Op::NewList, Op::SetMode(2), Op::SetSubset(1), Op::Analyse(8), Op::Collect(0), Op::SetMode(0), Op::Analyse(8), Op::Collect(0)],
+            vec![Op::NewList, Op::OtherCollect(0, 8, 2, 4), Op::Analyse(3), Op::Collect(0)],
         ];
         for (k, ops) in directed.iter().enumerate() {
             let probe = if k == 3 { 0 } else { 3 + rng.below(5) as usize };
